@@ -953,21 +953,28 @@ class Gen:
             g[key] = copy.deepcopy(val)
 
         if v3:
-            def small(kind):
+            def small(kind, cls='uint'):
                 def fn(doc):
                     ensure_erts(doc, 3)
+                    ft1 = {'class': cls, 'size': 1}
+                    ft8 = {'class': cls, 'size': 8}
+                    if 'enum' in cls:
+                        ft1['mappings'] = {'A': [0], 'B': [1]}
+                        ft8['mappings'] = {'A': [0], 'B': [1]}
                     if kind == 'literal':
-                        val = {'class': 'uint', 'size': 1}
+                        val = ft1
                     elif kind == 'alias':
-                        self._add_aliases(doc, {'zz_bit': {'class': 'uint', 'size': 1}})
+                        self._add_aliases(doc, {'zz_bit': ft1})
                         val = 'zz_bit'
                     else:
-                        self._add_aliases(doc, {'zz_u8': {'class': 'uint', 'size': 8}})
+                        self._add_aliases(doc, {'zz_u8': ft8})
                         val = {'$inherit': 'zz_u8', 'size': 1}
                     set_feature(doc, 'event-record', 'type-id-field-type', val)
                 return fn
             for kind in ('literal', 'alias', 'inherit'):
                 add('id-field-too-small', 'type-id 1 bit, 3 event record types (%s)' % kind, small(kind), p)
+                for cls in ('uenum', 'unsigned-enum', 'unsigned-enumeration'):
+                    add('id-field-too-small', 'type-id 1 bit %s, 3 event record types (%s)' % (cls, kind), small(kind, cls), p)
 
             def small2(doc):
                 ensure_erts(doc, 5)
@@ -1077,20 +1084,27 @@ class Gen:
                 f = tt.setdefault('$features', {})
                 f['data-stream-type-id-field-type'] = val
 
-            def small(kind):
+            def small(kind, cls='uint'):
                 def fn(doc):
                     ensure_dsts(doc, 3)
+                    ft1 = {'class': cls, 'size': 1}
+                    ft8 = {'class': cls, 'size': 8}
+                    if 'enum' in cls:     # every class a feature field type may have: unsigned enumerations too
+                        ft1['mappings'] = {'A': [0], 'B': [1]}
+                        ft8['mappings'] = {'A': [0], 'B': [1]}
                     if kind == 'literal':
-                        setf(doc, {'class': 'uint', 'size': 1})
+                        setf(doc, ft1)
                     elif kind == 'alias':
-                        self._add_aliases(doc, {'zz_bit': {'class': 'uint', 'size': 1}})
+                        self._add_aliases(doc, {'zz_bit': ft1})
                         setf(doc, 'zz_bit')
                     else:
-                        self._add_aliases(doc, {'zz_u8': {'class': 'uint', 'size': 8}})
+                        self._add_aliases(doc, {'zz_u8': ft8})
                         setf(doc, {'$inherit': 'zz_u8', 'size': 1})
                 return fn
             for kind in ('literal', 'alias', 'inherit'):
                 add('id-field-too-small', 'dst-id 1 bit, 3 data stream types (%s)' % kind, small(kind), p)
+                for cls in ('uenum', 'unsigned-enum', 'unsigned-enumeration'):
+                    add('id-field-too-small', 'dst-id 1 bit %s, 3 data stream types (%s)' % (cls, kind), small(kind, cls), p)
 
             def disabled(doc):
                 ensure_dsts(doc, 2)
